@@ -15,7 +15,7 @@ RULE = (
     "loop-free digraph on 6 and 7 vertices with <= 2 (thorough <= 3) edges (up to 5040 orderings each); plus the "
     "precedence graphs built by the ordered solver for every tuple of <= 3 ordered leaf syntenies over 3 families "
     "(thorough: <= 4 leaves). toposort_all must equal the permutation filter as a multiset (no repetition, none if "
-    "cyclic), toposort must return a member iff the set is non-empty. Vertex names: ints for the raw graphs, strings for "
+    "cyclic), toposort must return a member iff the set is non-empty. Vertex names: ints for the raw graphs (up to 4 vertices also frozensets and a None / 0 / '' / () mix), strings for "
     "precedence graphs. Non-trivial graph: acyclic with >= 2 orderings, or cyclic with >= 1 edge."
 )
 ASSUMPTIONS = ["permutation-filter reference refmodel/graphs.py:topo_orders"]
@@ -47,6 +47,13 @@ def plan(tier, seed):
     return out
 
 
+LABELS = (
+    (frozenset({1}), frozenset({2}), frozenset({3}), frozenset({1, 2})),     # `<` is a partial order on these
+    (None, 0, "", ()),                                                        # falsy, None, mutually unorderable
+)
+UNLABEL = {labels: {x: i for i, x in enumerate(labels)} for labels in LABELS}
+
+
 def check_graph(vertices, succ):
     g = {v: set(succ.get(v, ())) for v in vertices}
     want = sorted(topo_orders(vertices, g))
@@ -62,6 +69,26 @@ def check_graph(vertices, succ):
         return f"toposort({g}) = {one}, but {len(want)} orderings exist", len(want)
     if one is not None and tuple(one) not in set(want):
         return f"toposort({g}) = {one} is not a topological ordering", len(want)
+    # the same graph with vertex labels that are hashable but not totally ordered by `<` (sets), and with labels that are falsy
+    # or None / of mixed types: only hashing and equality may be relied on
+    if len(vertices) <= 4:
+        for labels in LABELS:
+            ren = {v: labels[i] for i, v in enumerate(vertices)}
+            back = {id(x): v for v, x in ren.items()}
+            h = {ren[v]: {ren[w] for w in s_} for v, s_ in g.items()}
+            try:
+                got2 = toposort_all(h)
+                one2 = toposort({k: set(x) for k, x in h.items()})
+                gl2 = sorted(tuple(UNLABEL[labels][x] for x in o) for o in got2)
+                one2i = None if one2 is None else tuple(UNLABEL[labels][x] for x in one2)
+            except Exception as exc:
+                return f"vertex labels {list(labels)[:len(vertices)]}: raised {type(exc).__name__}: {exc} on {g}", len(want)
+            wanti = sorted(tuple(vertices.index(x) for x in o) for o in want)
+            if gl2 != wanti:
+                return (f"vertex labels {list(labels)[:len(vertices)]}: toposort_all returned {len(gl2)} orderings "
+                        f"({len(set(gl2))} distinct), expected {len(wanti)} on {g}"), len(want)
+            if (one2i is None) != (not wanti) or (one2i is not None and one2i not in set(wanti)):
+                return f"vertex labels {list(labels)[:len(vertices)]}: toposort = {one2} on {g}; {len(wanti)} orderings exist", len(want)
     # operation history on ONE graph object (vertices in reverse key order, two vertices sharing one successor-set object
     # when they have equal successors): single ordering, all orderings, single ordering again; the graph must be left
     # untouched and every answer must be the same as on a fresh copy
